@@ -20,6 +20,16 @@ CHECKS = {
             'Trusts CPython dict/set semantics, the reference model in vlib/worldops.py, Hypothesis as '
             'generator/shrinker. Order of query results is not compared.',
             'DESIGN.md section 3 / C01'),
+    'C02': ('exploration',
+            'model-based stateful property testing (Hypothesis): per-operation owed-callback multisets from a '
+            'reference model vs the recorded callback log (trace invariant), dispatch toggles in the history',
+            'Randomised search over histories with shrinking: for every operation of every history the set of '
+            'lifecycle callbacks (receiver, entity, world) is compared with what a reference model owes, while '
+            'enabled and across disable/enable cycles (operation order), including cleared and reused worlds; '
+            'is_handler and probe delivery checked after every step. High confidence at small scope, no proof.',
+            'Trusts the reference model; callback order inside one operation not compared; clear() and probes '
+            'are issued only while enabled (dispatching is enabled first otherwise).',
+            'DESIGN.md section 3 / C02'),
     'C05': ('exploration',
             'model-based stateful property testing (Hypothesis): histories weighted to deferred deletion + '
             'operations on the same id, sentinel processor observing the frame start, deterministic line '
